@@ -264,27 +264,33 @@ Proof.
   intros re ra objs item. unfold reverse_remove.
   apply restoring_bind_gets. intros c. set (s := c_st c).
   destruct (existsb _ objs) eqn:Echk; [apply restoring_taint_fail|].
-  set (flag := match rev objs with ob :: _ => g_bool s (LAdded ob ra item) | [] => false end).
-  apply post_taint_block. intro Eflag.
   set (R := fun ob => [(LItem ob ra item, CBool true);
-                       (if flag then (LAdded ob ra item, CBool true) else (LRemoved ob ra item, CBool false))]
+                       (if g_bool s (LAdded ob ra item) then (LAdded ob ra item, CBool true) else (LRemoved ob ra item, CBool false))]
                       ++ (if g_bool s (LMod re ra ob) then [] else [(LMod re ra ob, CBool false)])).
   match goal with |- post c (block ?w ?u c) => replace u with (uw_list (flat_map R objs)) end.
   2:{ rewrite uw_list_flat_map. apply flat_map_ext. intros ob. unfold R.
-      destruct flag, (g_bool s (LMod re ra ob)); reflexivity. }
+      destruct (g_bool s (LAdded ob ra item)), (g_bool s (LMod re ra ob)); reflexivity. }
   apply post_block_uw.
   - intros l x Hin. apply in_flat_map in Hin as [ob [Hob Hin]].
     pose proof (existsb_false _ _ _ Echk ob Hob) as Hc. cbn in Hc. apply orb_false_iff in Hc as [Hi Hr].
     apply negb_false_iff in Hi.
-    pose proof (existsb_false _ _ _ Eflag ob Hob) as Hf. cbn in Hf. apply negb_false_iff in Hf. apply Bool.eqb_prop in Hf. fold flag in Hf.
     unfold R in Hin. apply in_app_or in Hin as [Hin|Hin].
-    + destruct flag eqn:Efl; in_cases Hin; rewrite view_bool by exact I; cbn; fold s; congruence.
+    + destruct (g_bool s (LAdded ob ra item)) eqn:Ea; in_cases Hin; rewrite view_bool by exact I; cbn; fold s; congruence.
     + destruct (g_bool s (LMod re ra ob)) eqn:Em; in_cases Hin. rewrite view_bool by exact I. cbn; fold s; congruence.
   - intros l x Hin. apply in_flat_map in Hin as [ob [Hob Hin]].
-    pose proof (existsb_false _ _ _ Eflag ob Hob) as Hf. cbn in Hf. apply negb_false_iff in Hf. apply Bool.eqb_prop in Hf. fold flag in Hf.
     destruct (g_bool s (LAdded ob ra item)) eqn:Ea; destruct (g_bool s (LMod re ra ob)) eqn:Em; in_cases Hin;
-      try (left; eapply (in_fst_flat_map _ R objs ob); [exact Hob | unfold R; rewrite <- ?Hf, ?Em; cbn; eauto]; fail);
+      try (left; eapply (in_fst_flat_map _ R objs ob); [exact Hob | unfold R; rewrite ?Ea, ?Em; cbn; eauto]; fail);
       right; rewrite view_bool by exact I; cbn; fold s; congruence.
+Qed.
+
+Lemma restoring_logged_writes : forall w, restoring (logged_writes w).
+Proof.
+  intros w. unfold logged_writes. apply restoring_bind_gets. intros c.
+  replace (map (fun lx => UW (fst lx) (c_st c (fst lx))) w) with (uw_list (map (fun lx => (fst lx, c_st c (fst lx))) w))
+    by (unfold uw_list; rewrite map_map; reflexivity).
+  apply post_block_uw.
+  - intros l x Hin. apply in_map_iff in Hin as [lx [Heq _]]. injection Heq as <- <-. symmetry; apply view_norm.
+  - intros l x Hin. left. rewrite map_map. cbn. apply in_map_iff. exists (l, x). split; [reflexivity | assumption].
 Qed.
 
 Lemma restoring_own : forall l x, restoring (own l x).
@@ -332,7 +338,7 @@ Qed.
 
 Lemma restoring_set_tail_rev : forall m o e a newl to_add to_remove, restoring (set_tail false m o e a newl to_add to_remove).
 Proof.
-  intros. unfold set_tail. apply restoring_bind; [apply restoring_gets | intros s]. apply restoring_unlogged.
+  intros. unfold set_tail. apply restoring_bind; [apply restoring_gets | intros s]. apply restoring_logged_writes.
 Qed.
 
 Lemma restoring_err_set_tail : forall d m o e a newl to_add to_remove, restoring_err (set_tail d m o e a newl to_add to_remove).
@@ -396,33 +402,6 @@ Proof.
 Qed.
 
 (* ------------------------------------------------------------------------------------------------ _delete_ *)
-Definition writes_of_closure (c : closure) : list (loc * cell) :=
-  flat_map (fun u => match u with UW l x => [(l, x)] | _ => [] end) c.
-Definition writes_of (cs : list closure) : list (loc * cell) := flat_map writes_of_closure cs.
-
-Lemma undo_closure_safe : forall wl c s, closure_safe wl c = true -> undo_closure c s = (apply_writes (writes_of_closure c) s, true).
-Proof.
-  intros wl c; induction c as [|u c IH]; intros s H; cbn in *; [reflexivity|].
-  apply andb_true_iff in H as [Hu Hc]. destruct u; cbn in Hu; try discriminate. cbn. now apply IH.
-Qed.
-
-Lemma replay_safe : forall wl cs s, forallb (closure_safe wl) cs = true -> replay cs s = (apply_writes (writes_of cs) s, true).
-Proof.
-  intros wl cs; induction cs as [|c cs IH]; intros s H; cbn in *; [reflexivity|].
-  apply andb_true_iff in H as [Hc Hcs]. rewrite (undo_closure_safe wl c s Hc).
-  unfold writes_of in *. cbn. rewrite apply_writes_app. now apply IH.
-Qed.
-
-Lemma writes_of_safe : forall wl cs l, forallb (closure_safe wl) cs = true -> In l (map fst (writes_of cs)) -> ~ In l wl.
-Proof.
-  intros wl cs l H Hin Hwl. apply in_map_iff in Hin as [[l' x] [Hl Hin]]. cbn in Hl; subst l'.
-  apply in_flat_map in Hin as [c [Hc Hin]]. apply in_flat_map in Hin as [u [Hu Hin]].
-  rewrite forallb_forall in H. specialize (H c Hc). unfold closure_safe in H. rewrite forallb_forall in H. specialize (H u Hu).
-  destruct u; cbn in Hin; try contradiction. destruct Hin as [Hin|[]]. injection Hin as -> ->.
-  cbn in H. apply negb_true_iff in H.
-  assert (existsb (loc_eqb l) wl = true) by (apply existsb_exists; exists l; split; [assumption | apply loc_eqb_refl]). congruence.
-Qed.
-
 Lemma apply_writes_commute : forall R w s,
   (forall l, In l (map fst R) -> ~ In l (map fst w)) ->
   veq (apply_writes R (apply_writes w s)) (apply_writes w (apply_writes R s)).
@@ -435,40 +414,30 @@ Qed.
 Lemma apply_writes_preserve : forall R s l, ~ In l (map fst R) -> view (apply_writes R s) l = view s l.
 Proof. intros. rewrite view_apply_writes, last_write_none; auto. Qed.
 
-Lemma undo_delqueue : forall S o sp q1,
+Lemma undo_delqueue : forall S o vac psp q1,
   g_status S o = SMarked -> g_queue S = q1 ++ [Some o] ->
-  match sp with None => True | Some i => nth_error q1 i = Some None end ->
-  undo_uact (UDelQueue o sp) S =
-  (match sp with
-   | Some i => upd (upd S LQueue (CQueue (set_nth q1 i (Some o)))) (LSavePos o) (CPos sp)
-   | None => upd (upd S LQueue (CQueue q1)) (LSavePos o) (CPos None) end, true).
+  match vac with None => True | Some i => nth_error q1 i = Some None end ->
+  undo_uact (UDelQueue o vac psp) S =
+  (match vac with
+   | Some i => upd (upd S LQueue (CQueue (set_nth q1 i (Some o)))) (LSavePos o) (CPos psp)
+   | None => upd (upd S LQueue (CQueue q1)) (LSavePos o) (CPos psp) end, true).
 Proof.
-  intros S o sp q1 Hs Hq Hsp. cbn. rewrite Hs, Hq. cbn. rewrite rev_app_distr. cbn. rewrite rev_involutive, Nat.eqb_refl.
-  destruct sp as [i|]; [now rewrite Hsp | reflexivity].
+  intros S o vac psp q1 Hs Hq Hv. cbn. rewrite Hs, Hq. cbn. rewrite rev_app_distr. cbn. rewrite rev_involutive, Nat.eqb_refl.
+  unfold del_slot. destruct vac as [i|]; [now rewrite Hv | reflexivity].
 Qed.
 
-Lemma placeholder_noop : forall s o sp st0, st0 = g_status s o -> is_del st0 = false ->
-  exists s', undo_closure [UDelQueue o sp; UW (LStatus o) (CStatus st0)] s = (s', true) /\ veq s' s.
-Proof.
-  intros s o sp st0 -> Hd. cbn. destruct (status_eqb (g_status s o) SMarked) eqn:E.
-  - apply status_eqb_eq in E. rewrite E in Hd. discriminate.
-  - eexists; split; [reflexivity|]. apply (veq_upd_old s (LStatus o)).
-Qed.
-
-Lemma firstn_app_exact : forall A (a b : list A), firstn (length a) (a ++ b) = a.
-Proof. intros A a b; induction a; cbn; [destruct b; reflexivity | now f_equal]. Qed.
-
-Lemma del_closure_exact : forall s o e st0 sp q q1 (keys : list (list nat * list value)),
-  g_queue s = q -> g_status s o = st0 -> g_savepos s o = sp ->
+Lemma del_closure_exact : forall s o e vac q q1 (keys : list (list nat * list value)),
+  g_queue s = q ->
   (forall sk, In sk keys -> g_idx s e (fst sk) (snd sk) = Some o) ->
-  ((sp = None /\ q1 = q) \/ (exists i, sp = Some i /\ nth_error q i = Some (Some o) /\ q1 = set_nth q i None)) ->
+  ((vac = None /\ q1 = q) \/ (exists i, vac = Some i /\ nth_error q i = Some (Some o) /\ q1 = set_nth q i None)) ->
   exists s0,
-    undo_closure ([UDelQueue o sp; UW (LStatus o) (CStatus st0)] ++ map (fun sk => UW (LIdx e (fst sk) (snd sk)) (CObj (Some o))) keys)
+    undo_closure ([UDelQueue o vac (g_savepos s o); UW (LStatus o) (CStatus (g_status s o))]
+                  ++ map (fun sk => UW (LIdx e (fst sk) (snd sk)) (CObj (Some o))) keys)
       (apply_writes (map (fun sk => (LIdx e (fst sk) (snd sk), CObj (@None oid))) keys
                      ++ [(LQueue, CQueue (q1 ++ [Some o])); (LSavePos o, CPos (Some (length q1))); (LStatus o, CStatus SMarked)]) s)
     = (s0, true) /\ veq s0 s.
 Proof.
-  intros s o e st0 sp q q1 keys Hq Hst Hsp Hk Hhole.
+  intros s o e vac q q1 keys Hq Hk Hhole.
   set (idxw := map (fun sk => (LIdx e (fst sk) (snd sk), CObj (@None oid))) keys).
   set (w := idxw ++ [(LQueue, CQueue (q1 ++ [Some o])); (LSavePos o, CPos (Some (length q1))); (LStatus o, CStatus SMarked)]).
   set (idxr := map (fun sk => (LIdx e (fst sk) (snd sk), CObj (Some o))) keys).
@@ -483,19 +452,19 @@ Proof.
   { assert (H : view S LQueue = CQueue (q1 ++ [Some o])).
     { unfold S, w. rewrite view_apply_writes, last_write_app. reflexivity. }
     cbn in H. now injection H. }
-  assert (HS3 : match sp with None => True | Some i => nth_error q1 i = Some None end).
+  assert (HS3 : match vac with None => True | Some i => nth_error q1 i = Some None end).
   { destruct Hhole as [[-> _] | [i [-> [Hn ->]]]]; [exact I | eapply nth_error_set_nth; eassumption]. }
-  cbn [app undo_closure]. rewrite (undo_delqueue S o sp q1 HS1 HS2 HS3).
-  set (qq := match sp with Some i => set_nth q1 i (Some o) | None => q1 end).
+  cbn [app undo_closure]. rewrite (undo_delqueue S o vac (g_savepos s o) q1 HS1 HS2 HS3).
+  set (qq := match vac with Some i => set_nth q1 i (Some o) | None => q1 end).
   assert (Hqq : qq = q).
   { unfold qq. destruct Hhole as [[-> ->] | [i [-> [Hn ->]]]]; [reflexivity | now apply set_nth_set_nth]. }
-  replace (match sp with
-           | Some i => upd (upd S LQueue (CQueue (set_nth q1 i (Some o)))) (LSavePos o) (CPos sp)
-           | None => upd (upd S LQueue (CQueue q1)) (LSavePos o) (CPos None) end)
-    with (upd (upd S LQueue (CQueue qq)) (LSavePos o) (CPos sp)) by (unfold qq; destruct sp; reflexivity).
+  replace (match vac with
+           | Some i => upd (upd S LQueue (CQueue (set_nth q1 i (Some o)))) (LSavePos o) (CPos (g_savepos s o))
+           | None => upd (upd S LQueue (CQueue q1)) (LSavePos o) (CPos (g_savepos s o)) end)
+    with (upd (upd S LQueue (CQueue qq)) (LSavePos o) (CPos (g_savepos s o))) by (unfold qq; destruct vac; reflexivity).
   cbn [undo_uact]. rewrite undo_uw_list. eexists; split; [reflexivity|].
-  change (apply_writes idxr (upd (upd (upd S LQueue (CQueue qq)) (LSavePos o) (CPos sp)) (LStatus o) (CStatus st0)))
-    with (apply_writes ([(LQueue, CQueue qq); (LSavePos o, CPos sp); (LStatus o, CStatus st0)] ++ idxr) S).
+  change (apply_writes idxr (upd (upd (upd S LQueue (CQueue qq)) (LSavePos o) (CPos (g_savepos s o))) (LStatus o) (CStatus (g_status s o))))
+    with (apply_writes ([(LQueue, CQueue qq); (LSavePos o, CPos (g_savepos s o)); (LStatus o, CStatus (g_status s o))] ++ idxr) S).
   unfold S. apply restore_writes.
   - intros l x Hin. apply in_app_or in Hin as [Hin|Hin].
     + in_cases Hin; cbn; congruence.
@@ -507,141 +476,87 @@ Proof.
     + rewrite map_app. apply in_or_app. left. in_cases Hin; cbn; tauto.
 Qed.
 
-Lemma undo_closure_transfer : forall cl X Y s0, veq X Y -> undo_closure cl Y = (s0, true) ->
-  exists sf, undo_closure cl X = (sf, true) /\ veq sf s0.
+(* the 'created' branch: the object is cancelled, its queue slot vacated and its primary key unregistered; the closure gives all of it back *)
+Lemma del_created_exact : forall s o e i pk q (keys : list (list nat * list value)),
+  g_queue s = q -> nth_error q i = Some (Some o) -> g_idx s e [0] pk = Some o ->
+  (forall sk, In sk keys -> g_idx s e (fst sk) (snd sk) = Some o) ->
+  exists s0,
+    undo_closure ([UDelQueue o (Some i) (g_savepos s o); UW (LStatus o) (CStatus (g_status s o))]
+                  ++ map (fun sk => UW (LIdx e (fst sk) (snd sk)) (CObj (Some o))) keys ++ [UW (LIdx e [0] pk) (CObj (Some o))])
+      (apply_writes (map (fun sk => (LIdx e (fst sk) (snd sk), CObj (@None oid))) keys
+                     ++ [(LQueue, CQueue (set_nth q i None)); (LSavePos o, CPos None); (LStatus o, CStatus SCancelled); (LIdx e [0] pk, CObj None)]) s)
+    = (s0, true) /\ veq s0 s.
 Proof.
-  intros cl X Y s0 Hv Hu. destruct (undo_closure_veq cl X Y Hv) as [H1 H2]. rewrite Hu in H1, H2. cbn in H1, H2.
-  destruct (undo_closure cl X) as [sf ok]. cbn in H1, H2. subst ok. exists sf. split; [reflexivity | assumption].
+  intros s o e i pk q keys Hq Hn Hpk Hk.
+  set (idxw := map (fun sk => (LIdx e (fst sk) (snd sk), CObj (@None oid))) keys).
+  set (w := idxw ++ [(LQueue, CQueue (set_nth q i None)); (LSavePos o, CPos None); (LStatus o, CStatus SCancelled); (LIdx e [0] pk, CObj None)]).
+  set (idxr := map (fun sk => (LIdx e (fst sk) (snd sk), CObj (Some o))) keys ++ [(LIdx e [0] pk, CObj (Some o))]).
+  replace (map (fun sk => UW (LIdx e (fst sk) (snd sk)) (CObj (Some o))) keys ++ [UW (LIdx e [0] pk) (CObj (Some o))]) with (uw_list idxr)
+    by (unfold uw_list, idxr; rewrite map_app, map_map; reflexivity).
+  set (S := apply_writes w s).
+  assert (HS1 : g_status S o = SCancelled).
+  { assert (H : view S (LStatus o) = CStatus SCancelled).
+    { unfold S, w. rewrite view_apply_writes, last_write_app. cbn. now rewrite Nat.eqb_refl. }
+    cbn in H. now injection H. }
+  assert (HS2 : g_queue S = set_nth q i None).
+  { assert (H : view S LQueue = CQueue (set_nth q i None)).
+    { unfold S, w. rewrite view_apply_writes, last_write_app. reflexivity. }
+    cbn in H. now injection H. }
+  cbn [app undo_closure]. cbn [undo_uact]. rewrite HS1. cbn [status_eqb]. unfold del_slot. rewrite HS2.
+  rewrite (nth_error_set_nth _ q i None (Some o) Hn), (set_nth_set_nth _ q i None (Some o) Hn).
+  cbn [undo_uact]. rewrite undo_uw_list. eexists; split; [reflexivity|].
+  change (apply_writes idxr (upd (upd (upd S LQueue (CQueue q)) (LSavePos o) (CPos (g_savepos s o))) (LStatus o) (CStatus (g_status s o))))
+    with (apply_writes ([(LQueue, CQueue q); (LSavePos o, CPos (g_savepos s o)); (LStatus o, CStatus (g_status s o))] ++ idxr) S).
+  unfold S. apply restore_writes.
+  - intros l x Hin. apply in_app_or in Hin as [Hin|Hin].
+    + in_cases Hin; cbn; congruence.
+    + unfold idxr in Hin. apply in_app_or in Hin as [Hin|Hin].
+      * apply in_map_iff in Hin as [sk [Heq Hin]]. injection Heq as <- <-.
+        change (CObj (Some o) = CObj (g_idx s e (fst sk) (snd sk))). now rewrite Hk.
+      * in_cases Hin. change (CObj (Some o) = CObj (g_idx s e [0] pk)). now rewrite Hpk.
+  - intros l x Hin. left. unfold w in Hin. apply in_app_or in Hin as [Hin|Hin].
+    + unfold idxw in Hin. apply in_map_iff in Hin as [sk [Heq Hin]]. injection Heq as <- <-.
+      rewrite map_app. apply in_or_app. right. unfold idxr. rewrite map_app, map_map. apply in_or_app. left.
+      apply in_map_iff. exists sk. split; [reflexivity | assumption].
+    + rewrite map_app. in_cases Hin; cbn; try tauto.
+      right. right. right. unfold idxr. rewrite map_app. apply in_or_app. right. cbn. tauto.
 Qed.
 
-Lemma post_tainted_log : forall A c (r : res A) new, c_taint (ctx_of r) <> [] -> c_log (ctx_of r) = new ++ c_log c -> post c r.
-Proof. intros A c r new Ht Hl. apply post_tainted; [assumption | eauto]. Qed.
-
-Lemma amend_index : forall (new_mid : list closure) (cd : closure) (lg : list closure),
-  length (new_mid ++ cd :: lg) - 1 - length lg = length new_mid.
-Proof. intros. rewrite app_length. cbn [length]. lia. Qed.
-
-Lemma cons_app_assoc : forall A (a : list A) x b, a ++ x :: b = (a ++ [x]) ++ b.
-Proof. intros. rewrite <- app_assoc. reflexivity. Qed.
-
-Lemma firstn_nested : forall A (new_mid : list A) cd lg,
-  firstn (length (new_mid ++ cd :: lg) - length lg - 1) (new_mid ++ cd :: lg) = new_mid.
+Lemma restoring_del_finish : forall o e st0 sp, restoring (del_finish sch o e st0 sp).
 Proof.
-  intros. replace (length (new_mid ++ cd :: lg) - length lg - 1) with (length new_mid) by (rewrite app_length; cbn [length]; lia).
-  apply firstn_app_exact.
-Qed.
-
-Lemma post_del_finish : forall c c2 new_mid o e st0 sp,
-  c_log c2 = new_mid ++ [UDelQueue o sp; UW (LStatus o) (CStatus st0)] :: c_log c ->
-  (c_taint c2 = [] -> c_taint c = [] /\ exists s1, replay new_mid (c_st c2) = (s1, true) /\ veq s1 (c_st c)) ->
-  st0 = g_status (c_st c) o -> is_del st0 = false -> sp = g_savepos (c_st c) o ->
-  post c (del_finish sch o e st0 sp (length (c_log c)) c2).
-Proof.
-  intros c c2 new_mid o e st0 sp Hlog Hmid Hst Hdel Hsp.
-  set (cd0 := [UDelQueue o sp; UW (LStatus o) (CStatus st0)]) in *.
-  assert (Hshape : c_log c2 = (new_mid ++ [cd0]) ++ c_log c) by (rewrite <- app_assoc; exact Hlog).
-  unfold del_finish. unfold bind at 1. unfold get, gets at 1. unfold bind at 1. unfold get_log at 1.
-  set (s2 := c_st c2).
-  set (keys := filter (fun sk => negb (has_none (snd sk))) (map (fun spec => (spec, key_of s2 o spec)) (key_specs (get_ent sch e)))).
-  match goal with |- post c ((if ?b then _ else _) c2) => destruct b eqn:Echk end.
-  { apply (post_tainted_log _ c _ (new_mid ++ [cd0])); cbn; [discriminate | exact Hshape]. }
+  intros o e st0 sp. unfold del_finish. apply restoring_bind_gets. intros c. set (s := c_st c).
+  set (keys := filter (fun sk => negb (has_none (snd sk))) (map (fun spec => (spec, key_of s o spec)) (key_specs (get_ent sch e)))).
+  match goal with |- post c ((if ?b then _ else _) c) => destruct b eqn:Echk end; [apply restoring_taint_fail|].
   apply negb_false_iff in Echk.
-  assert (Hnested : firstn (length (c_log c2) - length (c_log c) - 1) (c_log c2) = new_mid).
-  { rewrite Hlog. apply firstn_nested. }
-  rewrite Hnested.
-  destruct st0 eqn:Est0; try discriminate Hdel.
-  (* SAbsent, SInserted, SUpdated, SModified: the marked_to_delete branch; SCreated: the cancelled branch *)
+  assert (HK : forall sk, In sk keys -> g_idx s e (fst sk) (snd sk) = Some o).
+  { intros sk Hsk. rewrite forallb_forall in Echk. specialize (Echk sk Hsk).
+    revert Echk. apply opt_eqb_eq. intros; now apply Nat.eqb_eq. }
+  destruct st0.
   2:{ (* SCreated *)
-      destruct sp as [i|].
-      - cbn. eapply post_tainted_log.
-        + cbn. destruct (negb _); cbn; discriminate.
-        + cbn. destruct (negb _); cbn; rewrite Hlog, amend_index, amend_at_app; apply cons_app_assoc.
-      - apply (post_tainted_log _ c _ (new_mid ++ [cd0])); cbn; [discriminate | exact Hshape]. }
-  all: set (q := g_queue s2);
-    match goal with |- post _ (match ?hole with Some _ => _ | None => _ end _) => destruct hole as [q1|] eqn:Ehole end;
-    [ | apply (post_tainted_log _ c _ (new_mid ++ [cd0])); cbn; [discriminate | exact Hshape] ].
-  all: set (idxw := map (fun sk => (LIdx e (fst sk) (snd sk), CObj (@None oid))) keys) in *;
-    match goal with |- context [amend _ ?u] => set (idxu := u) in * end;
-    match goal with |- context [writes ?ww] => set (w := ww) in * end.
-  all: match goal with |- context [taint_if (negb ?b) _] => destruct b eqn:Esafe end;
-    [ | cbn; apply (post_tainted_log _ c _ (new_mid ++ [cd0 ++ idxu])); cbn;
-        [discriminate | rewrite Hlog, amend_index, amend_at_app, <- app_assoc; reflexivity] ].
-  all: cbn; exists (new_mid ++ [cd0 ++ idxu]); cbn;
-    split; [rewrite Hlog, amend_index, amend_at_app, <- app_assoc; reflexivity|].
-  all: intro Ht; destruct (Hmid Ht) as [Htc [s1 [Hr1 Hv1]]]; split; [exact Htc|].
-  all: rewrite replay_app, (replay_safe _ _ _ Esafe).
-  all: rewrite (replay_safe _ _ (c_st c2) Esafe) in Hr1; injection Hr1 as Hr1; fold s2 in Hr1.
-  all: cbn [replay].
-  (* facts about the state before the call, at the locations written by the final step *)
-  all: assert (Hpres : forall l, In l (map fst w) -> view (c_st c) l = view s2 l) by
-      (intros l Hl; rewrite <- (Hv1 l), <- Hr1; apply apply_writes_preserve; intro Hin;
-       exact (writes_of_safe _ _ _ Esafe Hin Hl)).
-  all: assert (HQ : g_queue (c_st c) = q) by
-      (assert (Hx : view (c_st c) LQueue = view s2 LQueue) by
-         (apply Hpres; unfold w; rewrite map_app; apply in_or_app; right; cbn; tauto);
-       cbn in Hx; now injection Hx).
-  all: assert (HK : forall sk, In sk keys -> g_idx (c_st c) e (fst sk) (snd sk) = Some o) by
-      (intros sk Hsk;
-       assert (Hx : view (c_st c) (LIdx e (fst sk) (snd sk)) = view s2 (LIdx e (fst sk) (snd sk))) by
-         (apply Hpres; unfold w; rewrite map_app; apply in_or_app; left;
-          unfold idxw; rewrite map_map; apply in_map_iff; exists sk; split; [reflexivity | exact Hsk]);
-       cbn in Hx; injection Hx as Hx; rewrite Hx;
-       rewrite forallb_forall in Echk; specialize (Echk sk Hsk);
-       revert Echk; apply opt_eqb_eq; intros; now apply Nat.eqb_eq).
-  all: assert (Hhole : (sp = None /\ q1 = q) \/ (exists i, sp = Some i /\ nth_error q i = Some (Some o) /\ q1 = set_nth q i None)).
+      destruct sp as [i|]; [|apply restoring_taint_fail].
+      match goal with |- post c ((if ?b then _ else _) c) => destruct b eqn:Eok end; [|apply restoring_taint_fail].
+      apply andb_true_iff in Eok as [E1 E2].
+      apply post_block. apply del_created_exact; try assumption; try reflexivity.
+      - revert E1. apply opt_eqb_eq. intros a b. apply opt_eqb_eq. intros; now apply Nat.eqb_eq.
+      - revert E2. apply opt_eqb_eq. intros; now apply Nat.eqb_eq. }
+  all: match goal with |- post _ (match ?hole with Some _ => _ | None => _ end _) => destruct hole as [q1|] eqn:Ehole end;
+    [|apply restoring_taint_fail].
+  all: apply post_block; apply (del_closure_exact s o e sp (g_queue s) q1 keys eq_refl HK).
   all: try (destruct sp as [i|]; try discriminate Ehole;
             first [ left; injection Ehole as <-; split; reflexivity
                   | right; exists i; revert Ehole; match goal with |- context [if ?b then _ else _] => destruct b eqn:En end; intro Ehole; [|discriminate Ehole];
                     injection Ehole as <-; split; [reflexivity|]; split; [|reflexivity];
                     revert En; apply opt_eqb_eq; intros a b; apply opt_eqb_eq; intros; now apply Nat.eqb_eq ]; fail).
-  all: destruct (del_closure_exact (c_st c) o e _ sp q q1 keys HQ (eq_sym Hst) (eq_sym Hsp) HK Hhole) as [s0 [Hu Hv]].
-  all: fold idxw idxu w in Hu.
-  all: assert (Hveq : veq (apply_writes (writes_of new_mid) (apply_writes w s2)) (apply_writes w (c_st c))) by
-      (eapply veq_trans;
-       [ apply apply_writes_commute; intros l Hl; exact (writes_of_safe _ _ _ Esafe Hl)
-       | apply veq_apply_writes; rewrite Hr1; exact Hv1 ]).
-  all: destruct (undo_closure_transfer _ _ _ _ Hveq Hu) as [sf [Ef Hvf]].
-  all: exists sf; split; [|eapply veq_trans; eassumption].
-  all: match goal with |- context [undo_closure ?a ?x] => assert (H : undo_closure a x = (sf, true)) by exact Ef; rewrite H end; reflexivity.
 Qed.
 
 Lemma restoring_delete : forall fuel o, restoring (delete sch flt fuel o).
 Proof.
   induction fuel as [|f IH]; intros o; [apply restoring_fail|].
-  cbn [delete]. intros c. unfold bind at 1. unfold get, gets at 1.
-  set (s := c_st c). set (st0 := g_status s o).
-  destruct (is_del st0) eqn:Hdel; [now apply post_refl|].
-  unfold bind at 1. unfold log_len at 1. unfold bind at 1. unfold push at 1.
-  set (sp := g_savepos s o). set (e := g_cls s o).
-  set (cd0 := [UDelQueue o sp; UW (LStatus o) (CStatus st0)]).
-  match goal with |- post c (_ ?cc) => set (c1 := cc) end.
-  set (mid := iterM (del_coll sch flt (delete sch flt f) o e) (set_attr_ids (get_ent sch e)) ;;;
-              iterM (del_ref sch flt (delete sch flt f) o e) (ref_attr_ids (get_ent sch e))).
-  assert (Hmid : restoring mid).
-  { unfold mid. apply restoring_bind; [apply restoring_iterM; intros; now apply restoring_del_coll|].
-    intros _. apply restoring_iterM; intros; now apply restoring_del_ref. }
-  (* re-associate: (m1 ;;; m2 ;;; fin) c1 = (mid ;;; fin) c1 *)
-  assert (Hassoc : (iterM (del_coll sch flt (delete sch flt f) o e) (set_attr_ids (get_ent sch e));;;
-                    iterM (del_ref sch flt (delete sch flt f) o e) (ref_attr_ids (get_ent sch e));;;
-                    del_finish sch o e st0 sp (length (c_log c))) c1
-                   = match mid c1 with
-                     | ROk _ c2 => del_finish sch o e st0 sp (length (c_log c)) c2
-                     | RErr er c2 => RErr er c2 end).
-  { unfold mid, bind. destruct (iterM (del_coll sch flt (delete sch flt f) o e) (set_attr_ids (get_ent sch e)) c1); [|reflexivity].
-    destruct (iterM (del_ref sch flt (delete sch flt f) o e) (ref_attr_ids (get_ent sch e)) c0); reflexivity. }
-  rewrite Hassoc. clear Hassoc.
-  specialize (Hmid c1). destruct (mid c1) as [[] c2|er c2] eqn:Em.
-  - (* the nested calls succeeded: the final step *)
-    destruct Hmid as [new_mid [Hl Hp]]. cbn in Hl, Hp.
-    apply (post_del_finish c c2 new_mid o e st0 sp); try reflexivity; try assumption.
-  - (* a nested call failed: the placeholder closure is a no-op *)
-    destruct Hmid as [new_mid [Hl Hp]]. cbn in Hl, Hp.
-    exists (new_mid ++ [cd0]). cbn. split; [rewrite Hl; apply cons_app_assoc|].
-    intro Ht. destruct (Hp Ht) as [Htc [s1 [Hr Hv]]]. split; [exact Htc|].
-    rewrite replay_app, Hr. cbn [replay].
-    destruct (placeholder_noop s o sp st0 eq_refl Hdel) as [s' [Hu Hvs]].
-    destruct (undo_closure_transfer _ _ _ _ Hv Hu) as [sf [Ef Hvf]].
-    fold cd0 in Ef. rewrite Ef. exists sf. split; [reflexivity | eapply veq_trans; eassumption].
+  cbn [delete]. apply restoring_bind_gets. intros c.
+  destruct (is_del _); [apply restoring_ret|].
+  apply restoring_bind; [apply restoring_iterM; intros; now apply restoring_del_coll | intros _].
+  apply restoring_bind; [apply restoring_iterM; intros; now apply restoring_del_ref | intros _].
+  apply restoring_del_finish.
 Qed.
 
 Lemma restoring_del_top : forall o, restoring (del_top sch flt o).
@@ -749,7 +664,6 @@ Proof.
   apply restoring_err_bind; [apply restoring_guard | intros _].
   apply restoring_err_bind; [apply restoring_guard | intros _].
   repeat (apply restoring_err_bind; [apply restoring_own | intros _]).
-  apply restoring_err_bind; [apply restoring_unlogged | intros _].
   apply restoring_err_bind.
   { apply restoring_iterM. intros j. destruct (a_kind _); try apply restoring_ret.
     - apply restoring_bind; [apply restoring_own | intros _].
@@ -817,7 +731,7 @@ Proof.
 Qed.
 
 (* the taints are exactly the nine named code sites *)
-Definition all_sites : list taint := [TSetReverse; TRemFlag; TDelNested; TNewPk; TDelCreated; TInconsistent].
+Definition all_sites : list taint := [TInconsistent].
 Lemma sites_complete : forall sch flt s o, known_bad sch flt s o = true ->
   exists t, In t (o_taints (step sch flt s o)) /\ In t all_sites.
 Proof.
